@@ -126,6 +126,12 @@ func (e charErr) Unwrap() error {
 		return context.DeadlineExceeded
 	case 14:
 		return context.Canceled
+	case 32:
+		return bufio.ErrTooLong
+	case 33:
+		return sse.ErrUnexpectedEOF
+	case 34:
+		return sse.ErrNoGetBody
 	}
 	return nil
 }
@@ -137,18 +143,53 @@ func (e charErr) Is(target error) bool {
 		return target == context.DeadlineExceeded
 	case 19:
 		return target == context.Canceled
+	case 35:
+		return target == io.EOF
+	case 36:
+		return target == io.ErrUnexpectedEOF || target == sse.ErrUnexpectedEOF
+	case 37:
+		return target == bufio.ErrTooLong
 	}
 	return false
 }
 
-const connErrKinds = 20
+const connErrKinds = 38
+
+// connSentinels: the kinds whose injected value IS a well-known sentinel - the value itself, not something that wraps or
+// matches it.  Among them the values whose identity the library itself gives a meaning to: io.ErrUnexpectedEOF (what
+// net/http's body reader returns for a body shorter than its Content-Length), the library's own ErrUnexpectedEOF and
+// ErrNoGetBody, bufio.ErrTooLong (what an oversized event makes the scanner report), the context sentinels.  Wherever
+// such a value is injected (reader, transport, validator, GetBody) it is an injected error like any other.
+var connSentinels = map[uint64]error{
+	16: context.DeadlineExceeded, 17: context.Canceled,
+	20: io.ErrUnexpectedEOF, 21: bufio.ErrTooLong, 22: sse.ErrUnexpectedEOF, 23: sse.ErrNoGetBody,
+	24: os.ErrDeadlineExceeded, 25: io.ErrClosedPipe, 26: io.ErrNoProgress, 27: net.ErrClosed,
+	28: http.ErrBodyReadAfterClose, 29: io.ErrShortBuffer, 30: syscall.ECONNRESET, 31: http.ErrHandlerTimeout,
+}
+
+// bareIdx: is err one of the sentinels themselves (==, never errors.Is: the library's own sentinels may alias or wrap
+// others), injected in the current attempt?  Sentinels are pointers or errnos, so the comparison cannot panic.
+func bareIdx(err error) (uint64, bool) {
+	for _, s := range connSentinels {
+		if err == s {
+			n := lastBare[s]
+			return n, n != 0
+		}
+	}
+	return 0, false
+}
 
 const dnsNamePrefix = "verif-injected-"
 
-// the index under which a bare sentinel (kinds 16, 17) was injected last: a sentinel has no room for an index, so
-// the projection reports the most recent injection of that very value (every clause about an injected error is
-// about the latest one: OnRetry's argument, the error Connect returns, the error Read yields)
+// the index under which a bare sentinel (connSentinels) was injected in the CURRENT attempt: a sentinel has no room for an
+// index, so the projection reports the injection of that very value (every clause about an injected error is about the
+// latest one: OnRetry's argument, the error Connect returns, the error Read yields).  Forgotten when the next request
+// reaches the RoundTripper: from then on the same value - the library's own ErrUnexpectedEOF for a clean end in mid-line,
+// bufio.ErrTooLong for an oversized event - is the library's again, not the harness's.
 var lastBare = map[error]uint64{}
+
+// whether the current entries of lastBare were injected by GetBody (the only injection site of a body reset)
+var bareAtReset bool
 
 var scriptedAddr = &net.TCPAddr{IP: net.IPv4(127, 0, 0, 1), Port: 9}
 
@@ -162,7 +203,11 @@ var scriptedAddr = &net.TCPAddr{IP: net.IPv4(127, 0, 0, 1), Port: 9}
 //	13 wraps context.DeadlineExceeded | 14 wraps context.Canceled | 15 matches context.DeadlineExceeded through Is and says
 //	Timeout() (http.Client.Timeout's error) | 16 context.DeadlineExceeded itself | 17 context.Canceled itself |
 //	18 *net.OpError{Op:"dial"} around a timeout that matches context.DeadlineExceeded (a dialer's own deadline) |
-//	19 *net.OpError{Op:"dial"} around a value that matches context.Canceled (net's "operation was canceled")
+//	19 *net.OpError{Op:"dial"} around a value that matches context.Canceled (net's "operation was canceled") |
+//	20-31 a well-known sentinel ITSELF (connSentinels): io.ErrUnexpectedEOF, bufio.ErrTooLong, sse.ErrUnexpectedEOF,
+//	sse.ErrNoGetBody, os.ErrDeadlineExceeded, io.ErrClosedPipe, io.ErrNoProgress, net.ErrClosed, http.ErrBodyReadAfterClose,
+//	io.ErrShortBuffer, ECONNRESET, http.ErrHandlerTimeout | 32-34 wraps bufio.ErrTooLong / sse.ErrUnexpectedEOF /
+//	sse.ErrNoGetBody | 35-37 matches io.EOF / both ErrUnexpectedEOFs / bufio.ErrTooLong through an Is method
 //
 // 13-19 are injected while the request context is alive: they are errors of the attempt, not of the context.
 func scriptedErr(n uint64) error {
@@ -184,13 +229,11 @@ func scriptedErr(n uint64) error {
 		return dns()
 	case 12:
 		return &net.OpError{Op: "dial", Net: "tcp", Err: dns()}
-	case 16:
-		lastBare[context.DeadlineExceeded] = n
-		return context.DeadlineExceeded
-	case 17:
-		lastBare[context.Canceled] = n
-		return context.Canceled
 	default:
+		if s, ok := connSentinels[n/1000]; ok {
+			lastBare[s] = n
+			return s
+		}
 		return charErr{n}
 	}
 }
@@ -375,6 +418,8 @@ func (r *connRun) RoundTrip(req *http.Request) (*http.Response, error) {
 		}
 		return nil, err
 	}
+	clear(lastBare) // a new attempt: from here on a sentinel that comes back is the library's, not the harness's
+	bareAtReset = false
 	// what the request carries
 	hdr := []val.V{}
 	for _, v := range req.Header.Values("Last-Event-ID") {
@@ -444,9 +489,12 @@ func connErrOf(err error) val.V {
 			return val.L(val.N(2), val.N(n))
 		}
 		return val.L(val.N(9), val.S(fmt.Sprint(err)))
-	case err == context.DeadlineExceeded && lastBare[err] != 0, err == context.Canceled && lastBare[err] != 0:
-		// the sentinel itself, injected as an attempt's error (scriptedErr kinds 16, 17)
-		return val.L(val.N(2), val.N(lastBare[err]))
+	}
+	if n, ok := bareIdx(err); ok {
+		// a sentinel itself, injected as this attempt's error (connSentinels): the injected value itself came back
+		return val.L(val.N(2), val.N(n))
+	}
+	switch {
 	case err == io.EOF:
 		return val.L(val.N(0))
 	case errors.Is(err, sse.ErrUnexpectedEOF):
@@ -480,6 +528,11 @@ func connRetOf(ctx context.Context, err error) val.V {
 		if !ok {
 			rs = 9
 		}
+		if rs == 0 && !bareAtReset {
+			// a body reset failed and GetBody injected nothing: whatever an earlier attempt injected, this error is the
+			// library's own (ErrNoGetBody), not the harness's
+			clear(lastBare)
+		}
 		return val.L(val.N(2), val.N(rs), connErrOf(ce.Err))
 	}
 	if cerr := ctx.Err(); cerr != nil && err == cerr {
@@ -507,6 +560,7 @@ func execConnect(in val.V) val.V {
 		ctx, cancel, release := connContext(cfg.At(8).Num(), cfg.At(5).Truth())
 		defer release()
 		clear(lastBare)
+		bareAtReset = false
 		run := &connRun{steps: steps.Items(), ctx: ctx, cancel: cancel}
 		if cfg.At(4).Present() {
 			run.patience = cfg.At(4).At(0).Signed()
@@ -533,6 +587,8 @@ func execConnect(in val.V) val.V {
 		if run.gbKind >= 3 {
 			req.GetBody = func() (io.ReadCloser, error) {
 				if run.gbKind == 4 && run.gbCalls >= run.gbAfter {
+					clear(lastBare)
+					bareAtReset = true
 					return nil, scriptedErr(run.gbErr)
 				}
 				run.gbCalls++
@@ -1053,11 +1109,18 @@ func genConnect(c *Ctx) {
 	connNearRetrySweep(c)
 	// endings after every byte position of short streams, clean and erroneous and cancelled (C11)
 	shorts := []string{"data: a\n\nid: 1\n\n", "id: 5\ndata: x\r\n\r\n: c\n", "\xef\xbb\xbfretry: 1\n\ndata: y\n\n", "data: a\n\n\n", "\n", "id: 3\revent: t\r\r"}
+	// clean end, a plain read error, cancellation, a read error that wraps io.EOF; then read errors that ARE a well-known
+	// sentinel (io.ErrUnexpectedEOF, the library's own ErrUnexpectedEOF, bufio.ErrTooLong, context.Canceled while the
+	// context lives, ...) or wrap / match one the library gives a meaning to (kinds 16, 17, 20-37)
+	endings := []val.V{val.L(val.N(0)), val.L(val.N(1), val.N(101)), val.L(val.N(2), val.N(0)), val.L(val.N(1), val.N(3101))}
+	for k := uint64(16); k < connErrKinds; k++ {
+		if k != 18 && k != 19 {
+			endings = append(endings, val.L(val.N(1), val.N(1000*k+101)))
+		}
+	}
 	for _, s := range shorts {
 		for cut := 0; cut <= len(s); cut++ {
-			for e := 0; e < 4; e++ {
-				// clean end, a plain read error, cancellation, a read error that wraps io.EOF
-				ending := []val.V{val.L(val.N(0)), val.L(val.N(1), val.N(101)), val.L(val.N(2), val.N(0)), val.L(val.N(1), val.N(3101))}[e]
+			for _, ending := range endings {
 				first := val.L(val.N(3), val.S(s[:cut]), ending, connChunks(r, cut), val.Bool(r.Bool()))
 				second := val.L(val.N(3), val.S("data: after\n\n"), val.L(val.N(0)), val.L(), val.Bool(false))
 				bo := val.L(val.Z(2000), vrat(1, 1), vrat(-1, 1), val.Z(0), val.Z(0), val.Z(1))
